@@ -58,7 +58,7 @@ import (
 // because an action under-declared may simulate fine; that is what D3(b) is
 // for and why D2 is one-directional.
 
-const c30FindingF1 = "F1" // tstate: delete -> re-create -> delete of a parent key resurrects the parent value
+const c30FindingF1 = "F1-tstate-remove-recreated" // tstate: delete -> re-create -> delete of a parent key resurrects the parent value
 
 const (
 	c30NAddr      = 4
